@@ -81,6 +81,17 @@ class Session(object):
             import whoosh.util
             self._real_random = whoosh.util.random
             whoosh.util.random = seams._RandomFacade(self.k.stream("names"))
+        # tuning knob without a public parameter: the codec builds its per-document
+        # CompoundWriter with the default buffer size
+        from whoosh.filedb import compound as _compound
+        self._cw_init = _compound.CompoundWriter.__dict__["__init__"]
+        cb = getattr(cfg, "cbuf", 32768)
+        if cb != 32768:
+            orig_init = self._cw_init
+
+            def _cw_init(cw, tempstorage, buffersize=cb):
+                orig_init(cw, tempstorage, buffersize)
+            _compound.CompoundWriter.__init__ = _cw_init
         self.model = M.ModelIndex(cfg)
         self.stats = {}
         self.known_hits = {}
@@ -125,6 +136,8 @@ class Session(object):
             # finalise whatever the run left behind while the (now aborting)
             # simulated OS is still in place
             gc.collect()
+            from whoosh.filedb import compound as _compound
+            _compound.CompoundWriter.__init__ = self._cw_init
             if self.real_dir is None:
                 seams.uninstall()
             else:
